@@ -112,6 +112,18 @@ CLAIMED = {
         "real-number theorem by the exhaustive harness run only. Copy *independence* is an aliasing fact tied by mutate-and-"
         "compare (C15 owns the heap model). One defect repaired by a fix: commit (b391377).",
    design="§4 C10"),
+ "C12": dict(
+   text="Lean: history_inv - after ANY sequence of add/remove operations (objects, bare names, names with octave, lists, other "
+        "containers, removals by name / name+octave / note) the container is strictly increasing by pitch (induction over the "
+        "operation list; append-then-sort proved equal to ordered insertion); addNoteObj_mem / remove_mem give the set-model "
+        "semantics of each operation; voicing_partial (bare name lands in [top, top+12) when both unreduced offsets are in "
+        "0..11) with a kernel-checked counterexample to the full clause = known finding C12-bare-name-voicing; chord_constructor "
+        "(every shorthand x 21 roots, kernel); pairwise_spec (consonance predicates = all pairs), eq_spec. Tie A: the octave "
+        "expressions / duplicate test of add_note; Tie B: all histories of depth <=3/4 over a 16-op alphabet + random depth 40, "
+        "each step judged against a set model started from the implementation's previous state.",
+   note=TRUST + "Known finding C12-bare-name-voicing listed with a matcher (failing sub-step adds a bare name, an involved name has an "
+        "offset outside 0..11, only that note's placement differs); any other deviation is a violation.",
+   design="§4 C12"),
  "C04": dict(
    text="Whole-table kernel evaluation (decide +kernel) of everything the statement says about each of the 30 keys, the 15 "
         "relative couples, the key objects and signature<->key inversion; unbounded theorems for rejections (any string, any "
